@@ -417,6 +417,28 @@ pub fn run_case(idx: usize, c: &EncCase, profile: &str) -> Value {
         Outcome::Panic(l, m) => panic_json(&l, &m),
     };
     events.push(json!({"ev": "Plan", "res": pres}));
+    // the string entry point with the same configuration (outcome kind only; C14 checks its function)
+    if let Ok(text) = std::str::from_utf8(&c.input) {
+        set_case(idx, "encode_str");
+        let mut b2 = DataMatrixBuilder::new();
+        for o in c.order {
+            b2 = match o {
+                0 => b2.with_encodation_types(modes_from_mask(c.modes)),
+                1 => b2.with_symbol_list(list.clone()),
+                2 => b2.with_macros(c.macros),
+                _ => b2.with_fnc1_start(c.fnc1),
+            };
+        }
+        let t = text.to_string();
+        let r = guarded(move || b2.encode_str(&t));
+        let sres = match r {
+            Outcome::Val(Ok(_)) => json!({"kind": "Ok"}),
+            Outcome::Val(Err(data::DataEncodingError::TooMuchOrIllegalData)) => json!({"kind": "TooMuch"}),
+            Outcome::Val(Err(data::DataEncodingError::SymbolListEmpty)) => json!({"kind": "ListEmpty"}),
+            Outcome::Panic(l, m) => panic_json(&l, &m),
+        };
+        events.push(json!({"ev": "EncodeStr", "res": sres}));
+    }
     json!({"id": idx, "fam": "enc", "stratum": c.stratum, "profile": profile, "order": c.order,
            "input": bytes_json(&c.input), "modes": c.modes, "list": list_names, "caps": caps,
            "macro": c.macros, "fnc1": c.fnc1, "eci": c.eci, "events": events})
